@@ -148,6 +148,7 @@ def blocked_one(args):
                 ch.queue.declare('bq')
                 broker.queues['bq'].append((spec.Basic.Properties(), b'z' * 300, '', 'bq'))
         out['chan_ids'] = {i: ch.channel_id for i, ch in chans.items()}
+        spare = conn.channel(rpc_timeout=60)          # a channel nobody is using when the transport dies
 
         def runner(i, b):
             def call():
@@ -222,6 +223,12 @@ def blocked_one(args):
                     broker.silent = True
             ctx.quiesce()
         sleep(sc['fault_ms'] / 1000.0)
+        if sc.get('broker_close_first'):
+            # the broker announces the end (Connection.Close with a code) and then drops the socket
+            broker.silent = False
+            broker.close_connection(320, 'CONNECTION_FORCED - going down')
+            broker.silent = True
+            ctx.quiesce()
         if sc['kind'] == 'epipe-write':
             # the failure is found by a writer: the socket is gone, the reader has not looked yet
             sock.dead = None
@@ -234,7 +241,7 @@ def blocked_one(args):
             ctx.join(t, timeout=30)
         out['alive'] = [t.name for t in threads if not t.done]
         out['conn_closed'] = conn.is_closed
-        out['chans_closed'] = all(ch.is_closed for ch in chans.values())
+        out['chans_closed'] = all(ch.is_closed for ch in chans.values()) and spare.is_closed
         out['n_exc'] = len(conn.exceptions)
         out['exc_types'] = sorted({type(e).__name__ for e in conn.exceptions})
 
@@ -245,7 +252,10 @@ def blocked_one(args):
     out['lib_excs'] = [(t.name, repr(t.exc)) for t in ctx.sched.threads if t.exc is not None and t.kind != 'app']
     out['main_exc'] = repr(ctx.main.exc) if getattr(ctx.main, 'exc', None) is not None else None
     # ---- model trace --------------------------------------------------------------------------------
-    out['lines'], out['expect'], out['joins'] = build_trace(sc, ctx.sched.log, ctx.sched.threads)
+    if sc.get('broker_close_first'):
+        out['lines'], out['expect'], out['joins'] = [], [], []      # judged by the monitor only
+    else:
+        out['lines'], out['expect'], out['joins'] = build_trace(sc, ctx.sched.log, ctx.sched.threads)
     return out
 
 
@@ -515,6 +525,8 @@ def check(rep):
         if kind == 'epipe-write' and not any(b in ('idle-call',) for b in bl):
             bl.append('idle-call')
         sc = {'blockers': bl, 'kind': kind, 'fault_ms': rng.choice([0, 3, 10, 17, 25, 40]), 'idle_ms': rng.choice([5, 30, 60, 120])}
+        if rng.random() < 0.15:
+            sc['broker_close_first'] = True
         if rng.random() < 0.4:
             cand = [k for k, b in enumerate(bl) if b in ('rpc', 'confirm', 'get')]
             if cand:
@@ -538,7 +550,8 @@ def check(rep):
         for b in sc['blockers']:
             rep.count('a_blocker', b)
         judge_blocked(rep, sc, seed, r, bound, idle)
-        judge_model(rep, sc, seed, r, mine)
+        if not sc.get('broker_close_first'):
+            judge_model(rep, sc, seed, r, mine)
     # ---- COSIM-b -------------------------------------------------------------------------------------
     probe = session_one(({'kind': 'eof', 'dir': 'recv', 'offset': 10 ** 9, 'rounds': 3, 'body': 200, 'probe': True}, 1))
     sent_total, recv_total = probe['bytes']
